@@ -835,7 +835,11 @@ func (ctx *context) Run() (res *Result) {
 
 	defer func() {
 		if r := recover(); r != nil {
-			ctx.res.runErr = fmt.Errorf("%s", r)
+			// Keep an error already reported (eg by the data tree): a
+			// later internal failure is only a consequence of it.
+			if ctx.res.runErr == nil {
+				ctx.res.runErr = fmt.Errorf("%s", r)
+			}
 			res = ctx.res
 		}
 		ctx.saveDebug()
@@ -849,6 +853,13 @@ func (ctx *context) Run() (res *Result) {
 		instr.fn(ctx)
 		ctx.addDebug(ctx.pfx + "----\n")
 		_ = x
+		if ctx.res.runErr != nil {
+			// An instruction reported an error (the data tree failed to
+			// navigate or to deliver a value): the remaining instructions
+			// would run on an inconsistent stack and replace the error
+			// with an unrelated one ('Stack underflow').
+			break
+		}
 	}
 
 	return ctx.res
